@@ -48,6 +48,7 @@ struct State
 	int next_gen = 1;
 	std::string err;
 	Ctx* ctx = nullptr;
+	bool saw_moving_accept = false, saw_move_accepted = false;
 	bool saw_rebind_other = false, saw_move_bound = false, saw_collision = false, saw_destroy_bound = false, saw_inflight = false, saw_wrap = false;
 	std::map<Key, int> released_by; // endpoint -> slot that last released it
 	// in-flight expectations: tag -> (proto, key, gen at send time)
@@ -242,13 +243,21 @@ void checkpoint(State& s)
 		x.accept_armed = true;
 		Obj* px = &x; World* pw = &w;
 		std::shared_ptr<std::function<void(boost::system::error_code const&)>> h(new std::function<void(boost::system::error_code const&)>());
-		*h = [px, pw, h](boost::system::error_code const& ec) {
+		// alternate between accepting into a given socket and the socket-returning overload (which moves the accepted socket)
+		std::shared_ptr<int> nacc(new int(i + s.next_tag));
+		std::shared_ptr<std::function<void()>> arm(new std::function<void()>());
+		*h = [px, pw, h, arm](boost::system::error_code const& ec) {
 			if (ec) { px->accept_armed = false; return; }
 			px->accepted.push_back(std::move(px->accept_into));
 			px->accept_into.reset(new tcp::socket(pw->node(px->node)));
-			if (px->ac) px->ac->async_accept(*px->accept_into, *h);
+			(*arm)();
 		};
-		x.ac->async_accept(*x.accept_into, *h);
+		*arm = [px, h, nacc, &s]() {
+			if (!px->ac) return;
+			if ((*nacc)++ % 2) { s.saw_moving_accept = true; px->ac->async_accept([px, h, arm_keep = 0](boost::system::error_code const& ec, tcp::socket peer) { (void)arm_keep; if (!ec) px->accept_into.reset(new tcp::socket(std::move(peer))); (*h)(ec); }); }
+			else px->ac->async_accept(*px->accept_into, *h);
+		};
+		(*arm)();
 	}
 	// 2. probes
 	struct UP { int tag; Key k; bool expect_owner; int owner; };
@@ -389,7 +398,12 @@ void checkpoint(State& s)
 	{
 		Obj& x = s.o[i];
 		boost::system::error_code ec;
-		for (auto& as : x.accepted) as->close(ec);
+		for (auto& as : x.accepted)
+		{
+			// moving an accepted socket (it shares the acceptor's endpoint without owning the binding) must leave the acceptor's binding alone
+			if ((i + int(x.accepted.size())) % 2) { std::unique_ptr<tcp::socket> m(new tcp::socket(std::move(*as))); as = std::move(m); s.saw_move_accepted = true; }
+			as->close(ec);
+		}
 		x.accepted.clear();
 		if (x.accept_armed && x.ac) { x.ac->cancel(ec); }
 	}
@@ -613,6 +627,8 @@ Verdict run_case(Case const& c, Ctx& ctx)
 	if (s.saw_collision) ctx.label("collision");
 	if (s.saw_inflight) ctx.label("inflight");
 	if (s.saw_wrap) ctx.label("ephemeral_wrap");
+	if (s.saw_moving_accept) ctx.label("socket_returning_accept");
+	if (s.saw_move_accepted) ctx.label("move_accepted_socket");
 	v.nontrivial = s.saw_rebind_other || s.saw_move_bound || s.saw_destroy_bound || s.saw_collision;
 	if (!err.empty()) { Verdict f = Verdict::fail("registry", err); f.nontrivial = v.nontrivial; return f; }
 	return v;
